@@ -3,6 +3,7 @@
 package sim
 
 import (
+	"runtime/pprof"
 	"bufio"
 	"fmt"
 	"os"
@@ -117,6 +118,13 @@ func runScenario(t *testing.T, sc *Scenario, drv Driver, bw *bufio.Writer) {
 		ok := t.Run(sc.Name, func(t *testing.T) {
 			synctest.Test(t, func(t *testing.T) {
 				w := NewWorld(sc.Cfg)
+				// hostile-peer scenarios: live heap before and after (C09: no peer input makes an
+				// endpoint hold more than a window per open stream)
+				heap0 := int64(-1)
+				heapFlagged := false
+				if sc.Cfg.RawClient || sc.Cfg.RawServer {
+					heap0 = liveHeap()
+				}
 				flush := func(n int) {
 					synctest.Wait()
 					for _, e := range w.drain() {
@@ -143,6 +151,29 @@ func runScenario(t *testing.T, sc *Scenario, drv Driver, bw *bufio.Writer) {
 					w.probe(false)
 					flush(i)
 					n = i + 1
+					if heap0 >= 0 && !heapFlagged {
+						var ms runtime.MemStats
+						runtime.ReadMemStats(&ms)
+						if int64(ms.HeapAlloc)-heap0 > 256<<20 { // cheap look first, then a collection to be sure
+							if grown := (liveHeap() - heap0) >> 20; grown > 48 {
+								heapFlagged = true
+								if pf := os.Getenv("SIM_HEAPPROF"); pf != "" {
+									if f, err := os.Create(pf); err == nil {
+										_ = pprof.Lookup("heap").WriteTo(f, 1)
+										f.Close()
+									}
+								}
+								w.logf("harnessfail code=902 a=%d b=0", grown)
+								flush(i)
+							}
+						}
+					}
+				}
+				if heap0 >= 0 && !heapFlagged {
+					if grown := (liveHeap() - heap0) >> 20; grown > 48 {
+						w.logf("harnessfail code=902 a=%d b=0", grown)
+						flush(n)
+					}
 				}
 				addLine(fmt.Sprintf("A %d teardown", n))
 				w.Teardown()
@@ -157,4 +188,12 @@ func runScenario(t *testing.T, sc *Scenario, drv Driver, bw *bufio.Writer) {
 	}()
 	fmt.Fprintf(bw, "X %s %s\n", sc.Name, status)
 	bw.Flush()
+}
+
+// liveHeap: bytes of live heap objects after a collection
+func liveHeap() int64 {
+	runtime.GC()
+	var ms runtime.MemStats
+	runtime.ReadMemStats(&ms)
+	return int64(ms.HeapAlloc)
 }
